@@ -12,8 +12,9 @@
   * C02: `C02acc.go_model` — the monitor's recount equals the model's counters (`CntRel`, kept as an
     invariant along `LL.callRecs`), the gate gives the double comparison `padOKF`, and
     `below_exact` turns it into the monitor's exact rational comparison as long as fewer than 2^53
-    packets were reported.  `C02acc.big*`: a state of the model with 2^53+3 counted packets in
-    which the model pads although the exact fraction has reached the limit.
+    packets were reported.  `C02acc.reject_big`: the schema of a model trace beyond 2^53 packets
+    that the monitor rejects (a batch of `n` PaddingSent reports for an unused id is evaluated
+    symbolically, `triggerEvents_pad_unknown`; instantiated in Props/C02.lean).
   * C03: `C03acc.go_model` — the monitor's `BlockAcc` is the model's blocking accounting (`BlkRel`),
     the gate gives `blockOKF`, which is the monitor's `blockOK` verbatim (both use the double share).
 -/
@@ -227,6 +228,126 @@ theorem monitor_model (ms : List Machine) (fp fb : F64) (t0 : Int) (rng : σ) (h
   exact go_model ρ (LL.modelTrace ρ ms fp fb t0 rng h) h 1 [] (Fw.init ρ ms fp fb t0 rng)
     (LL.machines_run (init_run ρ ms fp fb t0 rng)) (Inv04.init ρ ms fp fb t0 rng)
     (Cnt.init ρ ms fp fb t0 rng) (by simpa using hsmall)
+
+/-! #### beyond 2^53 packets: a model trace that the monitor rejects
+
+A batch of `n` PaddingSent reports for an id `k` no machine has only bumps the framework-wide
+padding counter, so the state after it is an explicit term for every `n` (no evaluation of the
+batch needed); a following single-event call is then a closed computation. -/
+
+/-- the framework-wide padding counter raised by `n` -/
+def bump (n : Nat) (s : Fw σ) : Fw σ := { s with g := { s.g with paddingSent := s.g.paddingSent + n } }
+
+theorem processEvent_pad_unknown (s : Fw σ) (k : Nat) (hk : s.rt.length ≤ k) :
+    processEvent ρ (.paddingSent k) s = bump 1 s := by
+  simp [processEvent, bump, hk]
+
+theorem fold_pad_unknown (n k : Nat) : ∀ (s : Fw σ), s.rt.length ≤ k →
+    (List.replicate n (TEvent.paddingSent k)).foldl (fun s e => processEvent ρ e s) s = bump n s := by
+  induction n with
+  | zero => intro s _; rfl
+  | succ n ih =>
+    intro s hk
+    rw [List.replicate_succ, List.foldl_cons, processEvent_pad_unknown ρ s k hk, ih (bump 1 s) hk]
+    simp [bump, Nat.add_assoc, Nat.add_comm 1 n]
+
+theorem triggerEvents_pad_unknown (n k : Nat) (t : Int) (s : Fw σ) (hk : s.rt.length ≤ k)
+    (hsig : s.signalPending = none) :
+    triggerEvents ρ (List.replicate n (.paddingSent k)) t s = bump n (s.callStart t) := by
+  unfold triggerEvents
+  rw [fold_pad_unknown ρ n k _ (by simpa [Fw.callStart] using hk)]
+  unfold signalRound
+  have : (bump n (s.callStart t)).signalPending = none := hsig
+  rw [this]
+
+theorem go_reject (t : FwTrace) (i : Nat) (hist : List TEvent) (c : CallRec) (cs : List CallRec)
+    (h : c.res = .ok) (hl : c.events.length = 1) (a : TAction) (ha : a ∈ c.actions)
+    (hb : badAct t (hist ++ c.events) a = true) : C02.monitor.go t i hist (c :: cs) ≠ none := by
+  rw [C02.monitor.go]
+  simp only [h, bne_self_eq_false, Bool.false_eq_true, if_false, hl, beq_self_eq_true, if_true]
+  generalize hfind : List.find? _ c.actions = r
+  have hr : c.actions.find? (badAct t (hist ++ c.events)) = r := hfind
+  cases r with
+  | some x => simp
+  | none =>
+    rw [List.find?_eq_none] at hr
+    exact absurd hb (hr a ha)
+
+theorem callRecs_two (s : Fw σ) (es1 es2 : List TEvent) (t1 t2 : Int) :
+    LL.callRecs ρ s [(es1, t1), (es2, t2)] =
+      [LL.callRec ρ s (es1, t1), LL.callRec ρ (triggerEvents ρ es1 t1 (LL.resetLog s)) (es2, t2)] := by
+  rw [LL.callRecs, LL.callRecs, LL.callRecs]
+
+theorem badAct_pad (t : FwTrace) (hist : List TEvent) (tmo : Nat) (b r : Bool) (mi : Nat) (m : Machine)
+    (hmi : t.machines[mi]? = some m)
+    (hpad : C02.padOK m t.fp (C02.countPad mi hist) (C02.countNormal hist) (C02.countPadAll hist) = false) :
+    badAct t hist (.sendPadding tmo b r mi) = true := by
+  simp only [badAct, hmi, hpad, Bool.not_false]
+
+/-- a batch followed by a single-event call with a rejected action -/
+theorem reject_two (T : FwTrace) (c1 c2 : CallRec) (hc : T.calls = [c1, c2]) (h1 : c1.res = .ok)
+    (hl1 : c1.events.length ≠ 1) (h2 : c2.res = .ok) (hl2 : c2.events.length = 1) (a : TAction)
+    (ha : a ∈ c2.actions) (hb : badAct T ([] ++ c1.events ++ c2.events) a = true) : C02.monitor T ≠ none := by
+  unfold C02.monitor
+  rw [hc, go_batch T 1 [] c1 [c2] h1 hl1]
+  exact go_reject T 2 _ c2 [] h2 hl2 a ha hb
+
+theorem counts_big (n k mi : Nat) (e : TEvent) (hkm : k ≠ mi) :
+    C02.countPad mi ([] ++ List.replicate n (.paddingSent k) ++ [e]) = C02.countPad mi [e] ∧
+    C02.countNormal ([] ++ List.replicate n (.paddingSent k) ++ [e]) = C02.countNormal [e] ∧
+    C02.countPadAll ([] ++ List.replicate n (.paddingSent k) ++ [e]) = n + C02.countPadAll [e] := by
+  refine ⟨?_, ?_, ?_⟩
+  · simp [C02.countPad, List.countP_append, List.countP_replicate, hkm]
+  · simp [C02.countNormal, List.countP_append, List.countP_replicate]
+  · simp [C02.countPadAll, List.countP_append, List.countP_replicate]
+
+/-- **`C02.monitor` rejects a trace of the model with more than 2^53 packets** (schema): after a
+    batch of `n` PaddingSent reports for an id `k` that no machine has, a single-event call `[e]` in
+    which the model returns SendPadding for `mi` although the exact test fails on the counts -/
+theorem reject_big (ms : List Machine) (fp fb : F64) (t0 : Int) (rng : σ) (n k : Nat) (t1 t2 : Int) (e : TEvent)
+    (tmo : Nat) (b r : Bool) (mi : Nat) (m : Machine)
+    (hk : ms.length ≤ k) (hn : n ≠ 1)
+    (hf0 : (Fw.init ρ ms fp fb t0 rng).fault = none)
+    (hsig : (Fw.init ρ ms fp fb t0 rng).signalPending = none)
+    (hres : (triggerEvents ρ [e] t2
+      (LL.resetLog (bump n ((LL.resetLog (Fw.init ρ ms fp fb t0 rng)).callStart t1)))).fault = none)
+    (ha : TAction.sendPadding tmo b r mi ∈ (triggerEvents ρ [e] t2
+      (LL.resetLog (bump n ((LL.resetLog (Fw.init ρ ms fp fb t0 rng)).callStart t1)))).actionsOut)
+    (hmi : ms[mi]? = some m) (hkm : k ≠ mi)
+    (hpad : C02.padOK m fp (C02.countPad mi [e]) (C02.countNormal [e]) (n + C02.countPadAll [e]) = false) :
+    C02.monitor (LL.modelTrace ρ ms fp fb t0 rng [(List.replicate n (.paddingSent k), t1), ([e], t2)]) ≠ none := by
+  have hlen : (LL.resetLog (Fw.init ρ ms fp fb t0 rng)).rt.length ≤ k := by
+    have h1 := (Inv04.init ρ ms fp fb t0 rng).rtLen
+    rw [LL.machines_run (init_run ρ ms fp fb t0 rng)] at h1
+    have h2 : (LL.resetLog (Fw.init ρ ms fp fb t0 rng)).rt = (Fw.init ρ ms fp fb t0 rng).rt := rfl
+    have h3 : (Fw.init0 ms fp fb t0 rng).machines = ms := rfl
+    rw [h2, h1, h3]; exact hk
+  have hs1 := triggerEvents_pad_unknown ρ n k t1 (LL.resetLog (Fw.init ρ ms fp fb t0 rng)) hlen hsig
+  generalize hT : LL.modelTrace ρ ms fp fb t0 rng [(List.replicate n (.paddingSent k), t1), ([e], t2)] = T
+  have hTm : T.machines = ms := by rw [← hT]; rfl
+  have hTf : T.fp = fp := by rw [← hT]; rfl
+  have hTc : T.calls = LL.callRecs ρ (Fw.init ρ ms fp fb t0 rng) [(List.replicate n (.paddingSent k), t1), ([e], t2)] := by
+    rw [← hT]; rfl
+  rw [callRecs_two, hs1] at hTc
+  generalize Fw.init ρ ms fp fb t0 rng = S0 at *
+  generalize hS1 : bump n ((LL.resetLog S0).callStart t1) = S1 at *
+  have hf1 : S1.fault = none := by rw [← hS1]; exact hf0
+  refine reject_two T _ _ hTc ?_ ?_ ?_ ?_ (.sendPadding tmo b r mi) ha ?_
+  · have : (LL.callRec ρ S0 (List.replicate n (TEvent.paddingSent k), t1)).res =
+        LL.resOf (triggerEvents ρ (List.replicate n (TEvent.paddingSent k)) t1 (LL.resetLog S0)).fault := rfl
+    rw [this, hs1]; exact (LL.resOf_ok _).2 hf1
+  · have : (LL.callRec ρ S0 (List.replicate n (TEvent.paddingSent k), t1)).events =
+        List.replicate n (TEvent.paddingSent k) := rfl
+    rw [this, List.length_replicate]; exact hn
+  · exact (LL.resOf_ok _).2 hres
+  · rfl
+  · have e1 : (LL.callRec ρ S0 (List.replicate n (TEvent.paddingSent k), t1)).events =
+        List.replicate n (TEvent.paddingSent k) := rfl
+    have e2 : (LL.callRec ρ S1 ([e], t2)).events = [e] := rfl
+    rw [e1, e2]
+    obtain ⟨c1, c2, c3⟩ := counts_big n k mi e hkm
+    apply badAct_pad T _ tmo b r mi m (by rw [hTm]; exact hmi)
+    rw [c1, c2, c3, hTf]; exact hpad
 
 end C02acc
 
